@@ -442,6 +442,9 @@ impl Prop for C11 {
     fn id(&self) -> &'static str {
         "C11"
     }
+    fn supplement(&self, tier: Tier, seed: u64) -> (Vec<crate::world::Violation>, Value) {
+        super::common::msim_supplement("C11", "coalesce", tier, seed)
+    }
     fn gen(&self, rng: &mut Rng, _t: Tier) -> Value {
         if rng.chance(1, 8) {
             // one run in eight drives the service from several threads (engine B)
